@@ -387,6 +387,8 @@ DIFF_WILDCARD = b'<DIFF>'
 
 def lines_agree(a, b):
     """impl line a vs model line b"""
+    if b == 'skipline':
+        return True     # an op that only queries the harness (the model has nothing to say)
     la, lb = Line(a), Line(b)
     if not la.structured or not lb.structured:
         return a == b
